@@ -208,6 +208,13 @@ class Executor(Evaluator):
 
     def ex_Assign(self, s, st):
         outs = []
+        if isinstance(s.value, (ast.List, ast.Dict)) and len(s.targets) == 1:
+            hint = self.target_type_hint(s.targets[0], st)
+            if hint is not None:
+                if isinstance(s.value, ast.List) and isinstance(hint, TList):
+                    s.value._elem_ty = hint.elem
+                if isinstance(s.value, ast.Dict) and isinstance(hint, TDict):
+                    s.value._dict_ty = hint
         for s2, v in self.ev(s.value, st):
             sts = [s2]
             for tgt in s.targets:
@@ -217,6 +224,20 @@ class Executor(Evaluator):
                 sts = nxt
             outs += [Outcome('normal', x) for x in sts]
         return outs
+
+    def target_type_hint(self, tgt, st):
+        """declared type of an assignment target (contract local types, or the schema type of self.<field>)"""
+        if isinstance(tgt, ast.Name):
+            d = self.frame.contract.types_d.get(tgt.id) if self.frame.contract else None
+            return self.W.parse_type(d) if d else None
+        if isinstance(tgt, ast.Attribute) and isinstance(tgt.value, ast.Name) and tgt.value.id in st.locals:
+            v = st.locals[tgt.value.id]
+            if isinstance(v.ty, TObj):
+                for d in self.W.subclasses(v.ty.cls):
+                    decl = self.W.field_decl(d, tgt.attr)
+                    if decl is not None:
+                        return decl[1]
+        return None
 
     def ex_AnnAssign(self, s, st):
         if s.value is None:
@@ -598,6 +619,16 @@ class Executor(Evaluator):
                     conn_arr = h0.get(h0.field_key(cdecl[0], cdecl[1]))[0]
                     preds.setdefault(('f', decl[0]), []).append(lambda r, conn_arr=conn_arr, owner=owner: z3.Select(conn_arr, r) == owner.term)
                     continue
+                if kind == 'each':
+                    seq = self.S.to_seq(self.S.eval(e.args[0], cx), h0)
+                    fq = ast.unparse(e.args[1])
+                    clsq, fname = fq.rsplit('.', 1)
+                    decl = self.W.field_decl(self.W.cls_by_name(clsq), fname)
+                    kk = z3.Int(fresh_name('kk'))
+                    pr = lambda r, seq=seq, kk=kk: z3.Exists([kk], z3.And(0 <= kk, kk < seq.t[0], z3.Select(seq.t[1], kk) == r))
+                    preds.setdefault(('f', decl[0]), []).append(pr)
+                    preds.setdefault(('present', decl[0]), []).append(pr)
+                    continue
                 if kind == 'lists_of':
                     d = self.S.eval(e.args[0], cx)
                     has = z3.Select(h0.get(h0.dict_has_key(d.ty.k))[0], d.term)
@@ -636,6 +667,8 @@ class Executor(Evaluator):
             if all(x.eq(y) for x, y in zip(a0, a1)):
                 continue
             if key[0] == 'g':
+                if key[1] == '$probe':
+                    continue          # ghost parameter, set by ghost code only
                 if key[1] == '$epoch':
                     if keeps_epoch:
                         self.oblige(st, z3.And([x == y for x, y in zip(a0, a1)]), label + '.epoch', 'frame')
@@ -680,13 +713,13 @@ class Executor(Evaluator):
         if isinstance(e, ast.Call) and isinstance(e.func, ast.Name) and e.func.id == 'enumerate' and 'enumerate' not in st.locals:
             res = []
             for s2, d in self.iter_source(e.args[0], st):
-                kind, n, get = d
+                kind, n, get = d[:3]
                 res.append((s2, ('seq', n, (lambda get: lambda k, h: mk_tuple([mk_int(k), get(k, h)]))(get))))
             return res
         if isinstance(e, ast.Call) and isinstance(e.func, ast.Name) and e.func.id == 'reversed' and 'reversed' not in st.locals:
             res = []
             for s2, d in self.iter_source(e.args[0], st):
-                kind, n, get = d
+                kind, n, get = d[:3]
                 res.append((s2, ('seq', n, (lambda get, n: lambda k, h: get(n - 1 - k, h))(get, n))))
             return res
         if isinstance(e, ast.Call) and isinstance(e.func, ast.Name) and e.func.id == 'range' and 'range' not in st.locals:
@@ -729,13 +762,17 @@ class Executor(Evaluator):
         raise Unsupported('iteration over %r' % (ty,))
 
     def for_over(self, node, st, desc):
-        kind, n, get = desc
+        kind, n, get = desc[:3]
+        seqsv = desc[3] if len(desc) > 3 else None
         k_loop, lp = self.loop_spec(node)
         itname = '_it%d' % (k_loop if k_loop is not None else 0)
         nname = '_n%d' % (k_loop or 0)
         st = st.copy()
         st.locals[itname] = mk_int(0)
         st.locals[nname] = mk_int(n)
+        if seqsv is not None:
+            st.locals['_seq%d' % (k_loop or 0)] = seqsv      # the enumeration being iterated (ghost)
+        st = self.drain(st)
         st = st.assume(n >= 0)
         if lp is not None and not getattr(lp, '_auto', False):
             lp._auto = True
@@ -817,7 +854,7 @@ class Executor(Evaluator):
             for p, a in zip(params[:i], allargs[:i]):
                 bound[p.name] = a
             bound[params[i].name] = mk_tuple(allargs[i:])
-            if any(p.kind == p.VAR_KEYWORD for p in params) or len(allargs) < i:
+            if (any(p.kind == p.VAR_KEYWORD for p in params) and kwargs) or len(allargs) < i:
                 raise Unsupported('**kwargs / missing positional')
             return bound
         for p, a in zip(params, allargs):
